@@ -21,6 +21,13 @@ bool     nondet_bool(void) { return false; }
 float    nondet_float(void) { return 1.0f; }
 }
 #include CONT_API
+// methods 24..27 are the iterator-pair overloads of 20..23 (fifo_cache only, see ranges.hpp)
+#if METHOD >= 24 && METHOD <= 27
+#define RANGE_ITER_FORM 1
+#define METHOD_EFF (METHOD - 4)
+#else
+#define METHOD_EFF METHOD
+#endif
 #include "clauses.hpp"
 #include "exec.hpp"
 #include "ranges.hpp"
@@ -48,13 +55,13 @@ static uint64_t call_method(C& c, uint64_t i)
 #if T_CAPPED
     sink = c.capacity();
 #endif
-#elif METHOD == M_INSERT_RANGE
+#elif METHOD_EFF == M_INSERT_RANGE
     sink = x_insert_range(c, e, 2, 3);
-#elif METHOD == M_ERASE_RANGE
+#elif METHOD_EFF == M_ERASE_RANGE
     sink = x_erase_range(c, e, 2);
-#elif METHOD == M_FIND_RANGE
+#elif METHOD_EFF == M_FIND_RANGE
     sink = x_find_range(c, e, 2, e[0].pk, out, &ko);
-#elif METHOD == M_FIND_RANGE_FILL
+#elif METHOD_EFF == M_FIND_RANGE_FILL
     x_find_range_fill(c, e, 2, e[0].pk, out, &ko);
 #else
     {
